@@ -14,6 +14,7 @@ import EinoV.Model.C04Lazy
 import EinoV.Proofs.C04Lazy
 import EinoV.Gen.FactsC04
 import EinoV.Expected.C04
+import EinoV.Proofs.C04Key
 
 namespace EinoV.C04
 open EinoV.Engine EinoV.Gen
@@ -407,5 +408,36 @@ example : (lazyMidFail (V := Nat) (fun xs => .ok xs) 1 { cls := .user 7 } (.ofLi
       (fun o => ((lazyOps 0).merge [LStream.ofList [5], o]).map
         (lazyConcat { concatItems := fun l => .ok l.sum, emptyErr := { cls := .noTasks } }))
     = some (.error { cls := .user 7 }) := rfl
+
+/-! ### values under an input key (`WithInputKey`): absent, nil, wrongly typed (`Model/C04Key.lean`) -/
+
+/-- fact tie: the conversion function of `defaultStreamMapFilter` describes a wrongly typed value
+    without calling a method on `reflect.TypeOf(v)` (which is nil for an untyped nil) -/
+theorem stream_filter_fact : FactsC04.streamFilterNilSafe = true := by decide
+
+/-- **input_key_never_panics.** With the nil-safe conversion function the source has
+    (`stream_filter_fact`), reading a stream filtered by an input key never panics, whatever the
+    chunks carry under the key — absent, an untyped nil, a value of another type, a good value, in
+    any order: every chunk is dropped, forwarded, or turned into an error item. -/
+theorem input_key_never_panics {V} (l : List (KVal V)) :
+    panicsAt FactsC04.streamFilterNilSafe l = false := by
+  rw [stream_filter_fact]; exact panicsAt_safe l
+
+/-- **input_key_paradigms_agree.** For the one-chunk stream (what `Stream` and every invoke-only
+    producer hand over) value mode and stream mode agree on the value under the key: the same value
+    when it has the node's type, a failure in both otherwise (absent, nil, wrong type). -/
+theorem input_key_paradigms_agree {V} (co : ChunkOps V) (kv : KVal V) :
+    (∀ v, keyValue kv = .ok v → lazyConcat co (keyStream [kv]) = .ok v) ∧
+    (∀ e, keyValue kv = .error e → ∃ e', lazyConcat co (keyStream [kv]) = .error e') :=
+  key_single_chunk co kv
+
+/-- a stream of good values passes the filter unchanged -/
+theorem input_key_forwards_good {V} (vs : List V) :
+    keyStream (vs.map KVal.good) = { chunks := vs, err := none } := keyStream_good vs
+
+/-- negation witness (the code before the repair): without the nil guard an untyped nil under the
+    key makes `Recv` panic in the reader's goroutine, while value mode returns an ordinary error -/
+theorem input_key_nil_panicked_before_repair :
+    panicsAt (V := Nat) false [.good 1, .nilVal] = true ∧ keyValue (V := Nat) .nilVal = .error errKeyType := ⟨rfl, rfl⟩
 
 end EinoV.C04
